@@ -528,16 +528,19 @@ type SynAckSpec struct {
 	AckNum        uint32 `json:"ack"`     // acknowledgement number (= client ISN+1): becomes the driver's localInitSeq
 	SackPermitted bool   `json:"sack_permitted"`
 	Timestamps    bool   `json:"timestamps"`
-	DelayNs       int64  `json:"delay_ns"`
-	TSOptLen      int    `json:"ts_opt_len,omitempty"` // malformed timestamp option data length (0 = normal 8)
-	Copies        int    `json:"copies,omitempty"`
-	WrongFirst    bool   `json:"wrong_first,omitempty"` // precede with a SYN-ACK of another flow
-	NoiseKind     string `json:"noise_kind,omitempty"`  // precede the genuine SYN-ACK with mutations of it (see Listener.Mutate)
-	NoiseArg      int    `json:"noise_arg,omitempty"`
-	NoiseForeign  bool   `json:"noise_foreign,omitempty"`  // the mutated SYN-ACKs belong to another flow (client port differs)
-	LateCopyMs    int    `json:"late_copy_ms,omitempty"`   // one more copy of the genuine SYN-ACK this long after the first (a retransmission seen during the probe phase)
-	FloodCount    int    `json:"flood_count,omitempty"`    // SYN-ACKs of other connections to the same target, ...
-	FloodEveryMs  int    `json:"flood_every_ms,omitempty"` // ... this far apart, starting when the connection is accepted
+	// BSDOrder: the options come in the order macOS / FreeBSD use - mss, nop, wscale, nop, nop, timestamps, sack-permitted,
+	// eol - instead of Linux's mss, sack-permitted, timestamps
+	BSDOrder     bool   `json:"bsd_order,omitempty"`
+	DelayNs      int64  `json:"delay_ns"`
+	TSOptLen     int    `json:"ts_opt_len,omitempty"` // malformed timestamp option data length (0 = normal 8)
+	Copies       int    `json:"copies,omitempty"`
+	WrongFirst   bool   `json:"wrong_first,omitempty"` // precede with a SYN-ACK of another flow
+	NoiseKind    string `json:"noise_kind,omitempty"`  // precede the genuine SYN-ACK with mutations of it (see Listener.Mutate)
+	NoiseArg     int    `json:"noise_arg,omitempty"`
+	NoiseForeign bool   `json:"noise_foreign,omitempty"`  // the mutated SYN-ACKs belong to another flow (client port differs)
+	LateCopyMs   int    `json:"late_copy_ms,omitempty"`   // one more copy of the genuine SYN-ACK this long after the first (a retransmission seen during the probe phase)
+	FloodCount   int    `json:"flood_count,omitempty"`    // SYN-ACKs of other connections to the same target, ...
+	FloodEveryMs int    `json:"flood_every_ms,omitempty"` // ... this far apart, starting when the connection is accepted
 }
 
 type Listener struct {
@@ -624,10 +627,20 @@ func (l *Listener) poll(n *Net) {
 		mk := func(srv, cli netip.AddrPort) []byte {
 			var opts []byte
 			opts = append(opts, refcodec.OptMSS(1460)...)
-			if l.Spec.SackPermitted {
+			if l.Spec.BSDOrder {
+				opts = append(opts, 1, 3, 3, 6) // nop, window scale 6
+				if l.Spec.Timestamps {
+					opts = append(opts, 1, 1)
+					opts = append(opts, refcodec.OptTimestamps(0x01020304, 0x0a0b0c0d)...)
+				}
+				if l.Spec.SackPermitted {
+					opts = append(opts, refcodec.OptSackPermitted()...)
+				}
+				opts = append(opts, 0) // end of option list; the builder pads
+			} else if l.Spec.SackPermitted {
 				opts = append(opts, refcodec.OptSackPermitted()...)
 			}
-			if l.Spec.Timestamps {
+			if l.Spec.Timestamps && !l.Spec.BSDOrder {
 				ts := refcodec.OptTimestamps(0x01020304, 0x0a0b0c0d)
 				if l.Spec.TSOptLen > 0 {
 					ts = ts[:2+l.Spec.TSOptLen]
